@@ -444,6 +444,12 @@ func (g *gobuilder) build(t *rt.Term) engine.Term {
 		}
 	}
 	r := g.next()
+	if len(elems) > 0 && (chars || codes) && r%3 != 2 { // string-like: prefer the string representations
+		r = goCharList
+		if codes {
+			r = goCodeList
+		}
+	}
 	switch {
 	case r == goCharList && chars && proper:
 		for _, e := range elems {
